@@ -105,6 +105,42 @@ impl<'a> Gen<'a> {
                 mode: None,
             });
         }
+        // Scale, rarely: one very wide directory (hundreds of entries: listing buffers, sort, handle
+        // reuse) or one very deep chain (far beyond walkdir's ten open handles).
+        match self.rng.below(160) {
+            0 => {
+                let d = self.rng.pick(&dirs).clone();
+                let k = self.rng.range(64, 300);
+                for i in 0..k {
+                    let path = join(&d, &format!("w{}", i));
+                    let kind = if self.rng.chance(1, 6) { Kind::Dir } else { Kind::File };
+                    if kind == Kind::Dir && self.rng.chance(1, 2) {
+                        tree.push(Node { path: path.clone(), kind, mode: None });
+                        tree.push(Node { path: join(&path, self.names[0]), kind: Kind::File, mode: None });
+                    }
+                    else {
+                        tree.push(Node { path, kind, mode: None });
+                    }
+                }
+            },
+            1 => {
+                let mut d = self.rng.pick(&dirs).clone();
+                let k = self.rng.range(16, 40);
+                for i in 0..k {
+                    let nm = if i % 3 == 0 { "d".to_string() } else { self.names[i % self.names.len()].to_string() };
+                    let path = join(&d, &nm);
+                    if tree.iter().any(|t| t.path == path) {
+                        break;
+                    }
+                    tree.push(Node { path: path.clone(), kind: Kind::Dir, mode: None });
+                    if self.rng.chance(1, 2) {
+                        tree.push(Node { path: join(&path, "leaf"), kind: Kind::File, mode: None });
+                    }
+                    d = path;
+                }
+            },
+            _ => {},
+        }
         if links != LinkMode::None {
             let nl = match self.rng.below(4) {
                 0 => 0,
